@@ -61,6 +61,8 @@ def cases(tier, seed):
     out.append(dict(gen='aes', keysize=32, ns='decrypt', name='FirstAddRoundKey', n=256, sub=core.subseed('C07sq', seed, 1), must=True))
     out.append(dict(gen='des', ns='encrypt', name='FirstSboxes', n=64, sub=core.subseed('C07sq', seed, 2), must=True))
     out.append(dict(gen='des', ns='decrypt', name='DeltaRFirstRounds', n=64, sub=core.subseed('C07sq', seed, 3), must=True))
+    for j in range(4 if tier == 'quick' else 80):
+        out.append(dict(gen='family', cipher=['aes', 'des'][j % 2], sub=core.subseed('C07fam', seed, j), must=j < 2))
     rs = np.random.default_rng(core.subseed('C07r', seed))
     n_rand = 150 if tier == 'quick' else 5000
     for j in range(n_rand):
@@ -166,7 +168,10 @@ def run_aes(case):
     sf = ctor()
     t.count('aes_cases')
     info = dict(cipher=f'AES-{ks * 8}', namespace=ns, function=name, traces=n, data_dtype=ddt, reads=tag)
-    full = np.asarray(sf(**{tag: data_in}))
+    decoy = {}
+    if rng.random() < 0.3:
+        decoy = dict(data=rng.integers(0, 256, data_in.shape).astype('uint8'))       # an unrelated metadata field called 'data'
+    full = np.asarray(sf(**{tag: data_in}, **decoy))
     if not t.check(full.shape == (n, 256, 16) and full.dtype.kind in 'iu', 'full_output_shape', lambda: dict(info, got=full.shape, dtype=str(full.dtype))):
         return t.result()
     # which reference state is targeted
@@ -272,7 +277,10 @@ def run_des(case):
     sf = ctor()
     t.count('des_cases')
     info = dict(cipher='DES', namespace=ns, function=name, traces=n, data_dtype=ddt, reads=tag)
-    full = np.asarray(sf(**{tag: data_in}))
+    decoy = {}
+    if rng.random() < 0.3:
+        decoy = dict(data=rng.integers(0, 256, data_in.shape).astype('uint8'))
+    full = np.asarray(sf(**{tag: data_in}, **decoy))
     if not t.check(full.shape == (n, 64, 8) and full.dtype.kind in 'iu', 'full_output_shape', lambda: dict(info, got=full.shape, dtype=str(full.dtype))):
         return t.result()
     step = dict(AddRoundKey=2, Sboxes=3, FeistelR=7, DeltaR=8)[name.replace('First', '').replace('Last', '').replace('Rounds', '')]
@@ -316,7 +324,60 @@ def run_des(case):
     return t.result(sig=f"des|{ns}|{name}|{n}|{ddt}|{info.get('words')}|{info.get('guesses')}", sample=dict(case=case, derived=info))
 
 
+def run_family(case):
+    """All functions of one cipher family applied to the SAME batch one after the other in one process (a memo keyed on the batch
+    content, a shared buffer or a round template changed by one function shows in the next one)."""
+    import scared
+    t = core.Tally()
+    rng = gen.rng_of(case['sub'])
+    cipher = case['cipher']
+    n = int(rng.choice([1, 2, 4]))
+    width = 16 if cipher == 'aes' else 8
+    data = rng.integers(0, 256, (n, width)).astype('uint8')
+    key = [int(v) for v in rng.integers(0, 256, 16 if cipher == 'aes' else 8)]
+    names = [(ns, nm) for ns in ('encrypt', 'decrypt') for nm in (AES_E if cipher == 'aes' and ns == 'encrypt' else AES_D if cipher == 'aes' else DES_N)]
+    order = [names[i] for i in rng.permutation(len(names))] * 2
+    for (ns, nm) in order:
+        ctor = getattr(getattr(getattr(scared, cipher).selection_functions, ns), nm)
+        first_key = (ns == 'encrypt' and 'First' in nm) or (ns == 'decrypt' and 'Last' in nm)
+        tag = 'plaintext' if first_key else 'ciphertext'
+        sf = ctor()
+        out = np.asarray(sf(**{tag: data}))
+        t.count('family_calls')
+        if cipher == 'aes':
+            kind = nm.replace('First', '').replace('Last', '').replace('Rounds', '')
+            rk = A.expand(key)
+            ek = rk[0] if first_key else rk[-1]
+            for r in range(n):
+                blk = [int(v) for v in data[r]]
+                if first_key:
+                    st, _ = A.enc_states(blk, key)
+                    exp = st[(0, 3)] if kind == 'AddRoundKey' else st[(1, 0)]
+                else:
+                    st, _ = A.dec_states(blk, key)
+                    exp = st[(0, 0)] if kind == 'AddRoundKey' else A.shr(st[(0, 3)]) if kind == 'SubBytes' else A.shr([a ^ b for a, b in zip(st[(0, 3)], blk)])
+                got = [int(out[r, ek[w], w]) for w in range(16)]
+                t.count('expected_key_column_vs_real_state')
+                t.check(got == exp, 'result_depends_on_earlier_calls', lambda: dict(cipher=cipher, function=f'{ns}.{nm}', trace=r, got=got, expected=exp, order=[f'{a}.{b}' for a, b in order][:8]))
+        else:
+            step = dict(AddRoundKey=2, Sboxes=3, FeistelR=7, DeltaR=8)[nm.replace('First', '').replace('Last', '').replace('Rounds', '')]
+            rks = D.round_keys(key)
+            ek = rks[0] if first_key else rks[15]
+            for r in range(n):
+                rec, pre, ct = D.des_trace([int(v) for v in data[r]], rks if first_key else rks[::-1])
+                exp = D.stop_value(rec, pre, ct, 0, step)
+                got = [int(out[r, ek[w], w]) for w in range(8)]
+                t.count('expected_key_column_vs_real_state')
+                t.check(got == exp, 'result_depends_on_earlier_calls', lambda: dict(cipher=cipher, function=f'{ns}.{nm}', trace=r, got=got, expected=exp, order=[f'{a}.{b}' for a, b in order][:8]))
+    return t.result(sig=f"family|{cipher}|{case['sub']}", sample=dict(case=case, calls=len(order)))
+
+
 def run_case(case):
+    if case['gen'] == 'family':
+        r = run_family(case)
+        for c in REQUIRED_COUNTERS:
+            r.setdefault('counters', {}).setdefault(c, 0)
+        return r
     r = run_aes(case) if case['gen'] == 'aes' else run_des(case)
     for c in REQUIRED_COUNTERS:
         r.setdefault('counters', {}).setdefault(c, 0)
